@@ -1148,6 +1148,8 @@ class Module:
             "__getitem__": "return operator.getitem(self._properties, key)",
             "_notify_on_key_changed": "for callback_ref in self._on_key_changed:\n    callback = callback_ref()\n    if callback:\n        callback(key)",
             "__reduce__": "return (self.__class__, (self._properties,))",
+            # only reached by pickles of nitypes 1.0.0 (slots state); current pickles go through __reduce__ -> __init__
+            "__setstate__": "self._properties = state[1]['_properties']\nself._on_key_changed = []",
             "__repr__": None, "__setitem__": None, "__delitem__": None, "_merge": None,
         }
         methods = {n.name: n for n in c.body if isinstance(n, (ast.FunctionDef, ast.AsyncFunctionDef))}
